@@ -984,9 +984,31 @@ class Streams:
         sub = self._bindings(target, it, depth)
         if sub is None:
             return None
-        out = substitute(elt, sub)
+        out = self._index_by_tid(substitute(elt, sub), depth)
+        if out is None:
+            return None
         self.origin[id(out)] = where
         return out
+
+    def _index_by_tid(self, node, depth):
+        """`L[__tid__]` for a list L that is itself such a stream -> its element expression"""
+        streams = self
+        failed = []
+
+        class R(ast.NodeTransformer):
+            def visit_Subscript(self, n):
+                n = self.generic_visit(n)
+                if isinstance(n.slice, ast.Name) and n.slice.id == TID and isinstance(n.value, ast.Name) \
+                        and isinstance(n.ctx, ast.Load):
+                    e = streams.elem(n.value, depth + 1)
+                    if e is None:
+                        failed.append(n)
+                        return n
+                    return e
+                return n
+
+        out = R().visit(node)
+        return None if failed else out
 
     def _bindings(self, target, it, depth):
         if isinstance(it, ast.Name) and self.single(it.id) is not None and not self._range(it) \
@@ -994,6 +1016,9 @@ class Streams:
             it = self.single(it.id)
         if self._range(it):
             return {target.id: ast.Name(id=TID, ctx=ast.Load())} if isinstance(target, ast.Name) else None
+        while isinstance(it, ast.Call) and isinstance(it.func, ast.Name) and it.func.id in ("list", "tuple", "iter") \
+                and len(it.args) == 1 and not it.keywords and not isinstance(it.args[0], ast.GeneratorExp):
+            it = it.args[0]         # list(zip(..)), tuple(enumerate(..)): the same elements in the same order
         if isinstance(it, ast.Call) and isinstance(it.func, ast.Name) and not it.keywords:
             if it.func.id == "zip" and isinstance(target, (ast.Tuple, ast.List)) and len(target.elts) == len(it.args) >= 1:
                 sub = {}
